@@ -1,6 +1,8 @@
 """Hypothesis strategies.  Every strategy yields plain JSON values (lists of
 floats / ints / strings); all randomness lives here so cases shrink and replay."""
+import os
 import math
+import numpy as np
 from hypothesis import strategies as st
 
 
@@ -182,3 +184,49 @@ def words(gens, max_len, min_len=0, inverses=True):
     if inverses:
         alphabet = alphabet + [g.upper() if g.lower() == g else g.lower() for g in gens]
     return st.lists(st.sampled_from(alphabet), min_size=min_len, max_size=max_len)
+
+
+
+# --------------------------------------------------------------------------- array flavours
+# (Fortran order is not in the automatic list: np.array(x) keeps it, BLAS then takes another
+# path, and where the library makes an arbitrary choice - the sign and order of the ideal
+# basis stored with a hyperplane - the choice can come out differently, validly; the laws
+# that compare such data composite against unit would see layout, not compositeness.
+# VERIF_FLAVOUR=fortran forces it everywhere for exploration.)
+FLAVOURS = ["plain", "plain", "noncontiguous", "readonly", "negstride"]
+
+
+def flavour_of(a):
+    """a deterministic choice of memory layout for the array handed to the library, derived
+    from the data itself (so that existing replay files keep their meaning)"""
+    a = np.asarray(a)
+    if a.size == 0 or a.ndim == 0:
+        return "plain"
+    v = np.abs(a.reshape(-1)[:4].astype(complex)).sum()
+    if not np.isfinite(v):
+        return "plain"
+    return FLAVOURS[int(v * 7919) % len(FLAVOURS)]
+
+
+def flavoured(a, which=None):
+    """the same values in another memory layout: a non-contiguous view (every second slot of
+    a wider buffer), Fortran order, a read-only array, or a view with a negative stride on
+    the first axis.  The library accepts array-likes and must not depend on the layout."""
+    a = np.asarray(a)
+    which = which or os.environ.get("VERIF_FLAVOUR") or flavour_of(a)
+    if which == "plain" or a.ndim == 0 or a.size == 0:
+        return a
+    if which == "noncontiguous":
+        big = np.zeros(a.shape[:-1] + (2 * a.shape[-1],), dtype=a.dtype)
+        big[..., ::2] = a
+        big[..., 1::2] = 12345.0
+        return big[..., ::2]
+    if which == "fortran":
+        return np.asfortranarray(a)
+    if which == "readonly":
+        r = a.copy()
+        r.setflags(write=False)
+        return r
+    if which == "negstride":
+        return np.ascontiguousarray(a[::-1])[::-1]
+    return a
